@@ -620,21 +620,51 @@ class Compiler:
     self.err(node, f'conditional of {a.ty} and {b.ty}')
 
   def e_BoolOp(self, e):
-    vals = [self.expr(v) for v in e.values]        # NOTE: operands here are side-effect free in the supported subset
-    out = vals[-1]
-    for v in reversed(vals[:-1]):
-      c = self.truth(v, e)
-      if isinstance(e.op, ast.Or):
-        if v.ty == 'bool' and out.ty == 'bool':
-          out = Val('bool', e=('op', 'or', v.c['e'], out.c['e']))
-        else:
-          out = self.ite(c, v, out, e) if not (v.ty in ('int', 'bool') and out.ty in ('int', 'bool') and v.ty != out.ty) else Val('bool', e=('op', 'or', c, self.truth(out, e)))
+    """`and` / `or` with python's short-circuit evaluation (later operands may contain pre-emption points)."""
+    is_or = isinstance(e.op, ast.Or)
+    lend = self.P.label('boolop_end')
+    first = self.expr(e.values[0])
+    if is_or and first.ty in ('exc', 'none'):
+      rty = 'exc'
+    elif is_or and first.ty == 'int':
+      rty = 'int'
+    else:
+      rty = 'bool'
+    res = self.local(self.fresh('bo'), rty)
+    line = e.lineno
+
+    def store(v):
+      if rty == 'exc':
+        if v.ty == 'none':
+          v = Val('exc', kind=C(K_NONE), val=C(0))
+        if v.ty != 'exc':
+          self.err(e, f'`or` of exception and {v.ty}')
+        self.P.emit('set', line, dst=('l', res), e=v.c['kind'])
+        self.P.emit('set', line, dst=('l', res + '.val'), e=v.c['val'])
+      elif rty == 'int':
+        if v.ty not in ('int', 'bool'):
+          self.err(e, f'`or` of int and {v.ty}')
+        self.P.emit('set', line, dst=('l', res), e=v.c['e'])
       else:
-        if v.ty in ('bool', 'int', 'exc', 'list', 'none') and out.ty in ('bool', 'int', 'exc', 'list', 'none') and not (v.ty == out.ty and v.ty in ('exc',)):
-          out = Val('bool', e=('op', 'and', c, self.truth(out, e)))
-        else:
-          out = self.ite(c, out, v, e)
-    return out
+        self.P.emit('set', line, dst=('l', res), e=self.truth(v, e))
+
+    v = first
+    for idx, nxt in enumerate(e.values[1:] + [None]):
+      store(v)
+      if nxt is None:
+        break
+      c = ('op', '!=', ('l', res), C(0))
+      lnext = self.P.label('boolop_next')
+      if is_or:
+        self.P.emit('br', line, e=c, t=lend, f=lnext)
+      else:
+        self.P.emit('br', line, e=c, t=lnext, f=lend)
+      self.P.place(lnext)
+      v = self.expr(nxt)
+    self.P.place(lend)
+    if rty == 'exc':
+      return Val('exc', kind=('l', res), val=('l', res + '.val'))
+    return Val(rty, e=('l', res))
 
   def e_UnaryOp(self, e):
     v = self.expr(e.operand)
